@@ -48,7 +48,8 @@ Definition Match (s:sstate) (r:rt) (fs:list frame) : Prop :=
 
 (* every field but the variables (and, for the running frame, the position) is untouched *)
 Definition kept (f f':frame) : Prop := set_vars f (f_vars f') = f'.
-Definition moved (f f':frame) : Prop := set_vars (set_pos f (f_pos f')) (f_vars f') = f'.
+(* the running frame: position and variables move on, and it may have been given its scope name *)
+Definition moved (f f':frame) : Prop := set_scope (set_vars (set_pos f (f_pos f')) (f_vars f')) (f_scope f') = f'.
 Lemma kept_refl f : kept f f. Proof. destruct f; reflexivity. Qed.
 Lemma kept_all_refl l : Forall2 kept l l. Proof. induction l; constructor; auto using kept_refl. Qed.
 Lemma kept_trans a b c : kept a b -> kept b c -> kept a c.
@@ -342,7 +343,7 @@ Proof.
     rewrite compile_block_from_cons in EC. cbn [app] in EC. rewrite <- app_assoc in EC. cbn [app] in EC.
     destruct (stmt_vm s reg st reg1 s1 HS r c f rest below pre _ A FR EC EP) as (r1 & c1 & f1 & rest1 & S1 & A1 & MV1 & P1 & K1).
     assert (EC1 : f_code f1 = (pre ++ compile_stmt st) ++ IEnd :: compile_stmt st2 ++ compile_block_from false rest0 ++ post).
-    { rewrite <- MV1. cbn [f_code set_vars set_pos]. rewrite EC, <- !app_assoc. reflexivity. }
+    { rewrite <- MV1. cbn [f_code set_vars set_pos set_scope]. rewrite EC, <- !app_assoc. reflexivity. }
     assert (EP1 : f_pos f1 = length (pre ++ compile_stmt st)) by (rewrite app_length, P1, EP; reflexivity).
     destruct (end_vm s1 reg1 r1 c1 f1 rest1 below _ _ A1 EC1 EP1) as (r2 & c2 & S2 & A2 & FR2).
     set (f2 := set_pos f1 (S (f_pos f1))) in *.
